@@ -103,6 +103,8 @@ Fixpoint skip_digits (s : str) : str :=
    [strict = false]: time.Parse(time.RFC3339, _), the pre-fix call, which additionally takes
    a one-digit hour, a comma before the fraction and zone offsets up to 24:60. *)
 
+Definition is_nil (s : str) : bool := match s with [] => true | _ => false end.
+
 (* optional fractional second: "." digit+  (lenient: "," too) *)
 Definition skip_frac (strict : bool) (s : str) : str :=
   match s with
@@ -113,14 +115,18 @@ Definition skip_frac (strict : bool) (s : str) : str :=
 (* Z07:00 and nothing after it *)
 Definition tz_ok (strict : bool) (s : str) : bool :=
   match s with
-  | 90 :: r => match r with [] => true | _ => false end
-  | sg :: h1 :: h2 :: col :: m1 :: m2 :: r =>
-    (col =? 58) && is_digit h1 && is_digit h2 && is_digit m1 && is_digit m2 &&
-    ((sg =? 43) || (sg =? 45)) &&
-    (dval h1 * 10 + dval h2 <=? (if strict then 23 else 24)) &&
-    (dval m1 * 10 + dval m2 <=? (if strict then 59 else 60)) &&
-    match r with [] => true | _ => false end
-  | _ => false
+  | [] => false
+  | sg :: r =>
+    if sg =? 90 then is_nil r
+    else
+      match r with
+      | h1 :: h2 :: col :: m1 :: m2 :: r' =>
+        (col =? 58) && is_digit h1 && is_digit h2 && is_digit m1 && is_digit m2 &&
+        ((sg =? 43) || (sg =? 45)) &&
+        (dval h1 * 10 + dval h2 <=? (if strict then 23 else 24)) &&
+        (dval m1 * 10 + dval m2 <=? (if strict then 59 else 60)) && is_nil r'
+      | _ => false
+      end
   end.
 
 Definition is_leap (y : N) : bool :=
